@@ -65,4 +65,10 @@ def generate(ws, n, seed, vworker, sub="g", extra=None):
     if rc != 0:
         vlib.harness_fail("generator failed: " + se[-2000:])
     pats = sorted("./%s/%s" % (sub, d) for d in os.listdir(os.path.join(ws, sub)) if os.path.isdir(os.path.join(ws, sub, d)))
+    # every generated package must compile: the workers drop packages with type errors, and a generator
+    # defect would otherwise silently thin out the corpus (up to 600 packages: a few seconds)
+    if n <= 600:
+        rc, so, se = vlib.sh(["go", "build", "./%s/..." % sub], cwd=ws, timeout=1200)
+        if rc != 0:
+            vlib.harness_fail("generated packages do not compile (generator defect): " + se[-1500:])
     return pats, man
